@@ -123,6 +123,31 @@ def render_change(r, k, dots):
     return "\n".join(out) + "\n"
 
 
+def _free(pkg, stmts, changes):
+    return dict(src="package %s\n\nfunc f() {\n%s}\n" % (pkg, "".join("\t%s\n" % x for x in stmts)),
+                changes=["@ c%d @\n%s" % (k + 1, c) for k, c in enumerate(changes)])
+
+
+X = "var x expression\n@@\n"
+Y = "var y expression\n@@\n"
+# hand-written sequences outside the rule universe: a later change whose pattern relates two places of the code
+# (a repeated metavariable, a nested pattern) that only become instances through what an earlier change did
+# INSIDE them.  They are judged against the chain of single-change runs with the file re-read in between,
+# which is the property's own definition of the result.
+FREE = [
+    _free("p", ["use(old(g(old(b, 1)), g(new(b))))", "use(old(g(old(c, 1)), g(new(b))))", "use(old(g(old(b, 2)), g(new(b))))"],
+          [X + "-old(x, 1)\n+new(x)\n", Y + "-old(y, y)\n+dup(y)\n"]),
+    _free("p", ["keep(pair(wrap(k(1)), k(1)))", "keep(pair(wrap(k(1)), k(2)))", "keep(pair(k(3), k(3)))"],
+          [X + "-wrap(x)\n+x\n", Y + "-pair(y, y)\n+one(y)\n"]),
+    _free("q", ["h(f(1))", "h(g(2))", "h(k(f(3)))"],
+          [X + "-f(x)\n+g(x)\n", Y + "-h(g(y))\n+k(y)\n", X + "-k(x)\n+done(x)\n"]),
+    _free("p", ["eq(sum(a(1), 2), sum(b(1), 2))", "eq(sum(a(1), 2), sum(b(2), 2))"],
+          [X + "-a(x)\n+b(x)\n", Y + "-eq(y, y)\n+same(y)\n", Y + "-same(sum(b(y), 2))\n+found(y)\n"]),
+    _free("p", ["both(old(1, 1), new(1))", "both(lift(old(2, 1)), lift(new(2)))", "both(lift(old(2, 1)), lift(new(3)))"],
+          [X + "-old(x, 1)\n+new(x)\n", Y + "-both(y, y)\n+once(y)\n", X + "-once(lift(x))\n+lifted(x)\n"]),
+]
+
+
 def scenario(sid, files, args, stdin="", meta=None):
     return dict(id=sid, files=files, dirs=[], symlinks=[], args=args, stdin=stdin, cwd="", strace=False, meta=meta or {}, timeout_ms=20000)
 
@@ -145,6 +170,9 @@ def run(ctx):
     ctx.tlc("EmitHistory", CFG_EMIT % dict(atoms=q(atoms), n=3, len=2, out=out3, per=25 if quick else 300, nf=40, ns=1500 if quick else 6000),
             "emit-history3", workers=1, timeout=3000, extra=["-seed", str(ctx.seed + 1)])
     scs += read_ndjson(out3)
+    for fsc in FREE:
+        scs.append(dict(free=fsc, rules=[dict(t="free", k=k) for k in range(len(fsc["changes"]))], pkg="", body=[], copied=False))
+        scs[-1]["class"] = "free"
     results = execute(ctx, scs)
     st = judge(ctx, results, known)
     by_class = {}
@@ -165,8 +193,11 @@ def execute(ctx, scs):
     for i, sc in enumerate(scs):
         sc["dots"] = ctx.rng.random() < 0.5
         sc.setdefault("copied", ctx.rng.random() < 0.35)
-        src = render_file(sc, ctx.rng)
-        changes = [render_change(r, k + 1, sc["dots"]) for k, r in enumerate(sc["rules"])]
+        if sc.get("free"):
+            src, changes = sc["free"]["src"], list(sc["free"]["changes"])
+        else:
+            src = render_file(sc, ctx.rng)
+            changes = [render_change(r, k + 1, sc["dots"]) for k, r in enumerate(sc["rules"])]
         pre = [C0] if sc["copied"] else []          # delivered in front of the scenario's changes, through every route
         p0 = ["-p", "c0.patch"] if sc["copied"] else []
         allp = "\n".join(pre + changes)
@@ -233,23 +264,26 @@ def execute(ctx, scs):
     obs = {r["id"]: r for r in read_ndjson(outp)}
     names = {"a", "b", "c", "z"}
 
-    def ab(oid):
+    def ab(oid, every=False):
         o = obs[oid]
         if o["err"]:
             return dict(pkg="<unparseable>", body=[])
         j = json.loads(o["out"])
-        return dict(pkg=j["pkg"], body=[dict(f=c["f"], args=c["args"]) for c in j["calls"] if c["f"] in names])
+        return dict(pkg=j["pkg"], body=[dict(f=c["f"], args=c["args"]) for c in j["calls"] if every or c["f"] in names])
 
     lines = []
     for m in metas:
         sid = m["id"]
-        i0 = ab(sid + "|in")
-        if i0["pkg"] != m["sc"]["pkg"] or i0["body"] != m["sc"]["body"]:
+        free = bool(m["sc"].get("free"))
+        i0 = ab(sid + "|in", free)
+        if free:
+            m["sc"]["pkg"], m["sc"]["body"] = i0["pkg"], i0["body"]
+        elif i0["pkg"] != m["sc"]["pkg"] or i0["body"] != m["sc"]["body"]:
             raise Infra("rendered source of %s does not abstract back to the scenario" % sid)
         routes, evs = [], []
         for route in ("one", "each", "list", "stdin", "mixed", "same"):
             r = recs["%s|%s" % (sid, route)]
-            o = ab("%s|%s" % (sid, route))
+            o = ab("%s|%s" % (sid, route), free)
             failed = r["exit"] != 0 or r["timeout"]
             routes.append(dict(name=route, pkg=o["pkg"], body=o["body"], failed="1" if failed else "0",
                                reported="1" if (failed and TARGET.split("/")[-1] in r["stderr"]) else "0",
@@ -265,14 +299,18 @@ def execute(ctx, scs):
                     ev.append(dict(k=int(nm[1:]) if nm[:1] == "c" and nm[1:].isdigit() else 0, matched="1" if e.get("matched") else "0"))
             evs.append(dict(route=route, ev=ev))
         a = apires[sid + "|api"]
-        o = ab(sid + "|api")
+        o = ab(sid + "|api", free)
         routes.append(dict(name="api", pkg=o["pkg"], body=o["body"], failed="1" if a["err"] else "0", reported="1" if a["err"] else "0", untouched="1"))
         want_fail = m["sc"]["class"] == "fails"
+        chain_obs = ab(sid + "|chain", free)
+        if free and sid in chain_fail:
+            raise Infra("a hand-written sequence failed in the chain of single runs (%s): %s" % (sid, chain_fail[sid]))
         if not (want_fail and sid in chain_fail):
-            o = ab(sid + "|chain")
+            o = chain_obs
             routes.append(dict(name="chain", pkg=o["pkg"], body=o["body"], failed="1" if sid in chain_fail else "0", reported="1", untouched="1"))
         for e in evs:
             lines.append(dict(id=sid + "|" + e["route"], pkg=m["sc"]["pkg"], body=m["sc"]["body"], rules=m["sc"]["rules"], events=e["ev"],
+                              free="1" if free else "0", chain=dict(pkg=chain_obs["pkg"], body=chain_obs["body"]),
                               hooks="1", routes=routes if e["route"] == "one" else [x for x in routes if x["name"] == e["route"]]))
         m["recs"] = {route: dict(exit=recs["%s|%s" % (sid, route)]["exit"], stderr=recs["%s|%s" % (sid, route)]["stderr"][:300],
                                  content=recs["%s|%s" % (sid, route)]["content"].get(TARGET)) for route in ("one", "each", "list", "stdin", "mixed", "same")}
@@ -308,7 +346,7 @@ def judge(ctx, results, known):
         if v["ieq"] != "1":
             st["drift"] += 1
         if v["viol"]:
-            ctx.violation("%s: %s rules=%s" % (ln["id"], ",".join(v["viol"]), [(r["t"], r["from"], r["to"], r["guard"], r["newpkg"]) for r in m["sc"]["rules"]]),
+            ctx.violation("%s: %s rules=%s" % (ln["id"], ",".join(v["viol"]), [(r["t"], r.get("from"), r.get("to"), r.get("guard"), r.get("newpkg")) for r in m["sc"]["rules"]] if not m["sc"].get("free") else "hand-written sequence"),
                           dict(kind="history", id=ln["id"], violated=v["viol"], scenario=m["sc"], src=m["src"], changes=m["changes"],
                                record=ln, runs=m["recs"], api=m["api"], chain=m["chain"]))
     return st
